@@ -9,6 +9,8 @@
 package refschema
 
 import (
+	"math"
+
 	"github.com/ipld/go-ipld-prime/datamodel"
 	nd "github.com/ipld/go-ipld-prime/internal/verifnd"
 	"github.com/ipld/go-ipld-prime/zzverif/ref/refval"
@@ -91,7 +93,7 @@ func (g *G) Gen(t *schemas.T) *refval.V {
 				nd.Assume(k != o)
 			}
 			v.Keys = append(v.Keys, k)
-			v.L = append(v.L, g.Gen(schemas.ByName(t.Elem)))
+			v.L = append(v.L, g.genElem(t))
 		}
 		return v
 	case "list":
@@ -103,7 +105,7 @@ func (g *G) Gen(t *schemas.T) *refval.V {
 			n = 1
 		}
 		for i := 0; i < n; i++ {
-			v.L = append(v.L, g.Gen(schemas.ByName(t.Elem)))
+			v.L = append(v.L, g.genElem(t))
 		}
 		return v
 	case "union":
@@ -114,6 +116,13 @@ func (g *G) Gen(t *schemas.T) *refval.V {
 		return refval.MkString(m.Type)
 	}
 	panic("refschema.Gen: " + t.Kind)
+}
+
+func (g *G) genElem(t *schemas.T) *refval.V {
+	if t.ElemNullable && nd.Choose(g.name("null"), 2) == 1 {
+		return refval.MkNull()
+	}
+	return g.Gen(schemas.ByName(t.Elem))
 }
 
 // Repr: the representation of typed value v of type t.
@@ -333,6 +342,10 @@ func FromRepr(t *schemas.T, r *refval.V) (*refval.V, bool) {
 		}
 		v := &refval.V{K: refval.Map, Keys: r.Keys}
 		for _, e := range r.L {
+			if e.K == refval.Null && t.ElemNullable {
+				v.L = append(v.L, e)
+				continue
+			}
 			ev, ok := FromRepr(schemas.ByName(t.Elem), e)
 			if !ok {
 				return nil, false
@@ -346,6 +359,10 @@ func FromRepr(t *schemas.T, r *refval.V) (*refval.V, bool) {
 		}
 		v := &refval.V{K: refval.List}
 		for _, e := range r.L {
+			if e.K == refval.Null && t.ElemNullable {
+				v.L = append(v.L, e)
+				continue
+			}
 			ev, ok := FromRepr(schemas.ByName(t.Elem), e)
 			if !ok {
 				return nil, false
@@ -492,4 +509,53 @@ func (g *G) Mutate(v *refval.V) *refval.V {
 	// scalars: another kind, or null
 	alts := []*refval.V{refval.MkNull(), refval.MkInt(nd.Int64(g.name("ri"))), refval.MkString(nd.String(g.name("rs"), 1)), refval.MkBool(true), refval.MkMap(nil, nil), refval.MkList()}
 	return alts[nd.Choose(g.name("retype"), len(alts))]
+}
+
+// Assign writes an abstract tree (typed or representation level) into an assembler; Absent
+// entries are skipped. The first error is returned.
+func Assign(na datamodel.NodeAssembler, v *refval.V) error {
+	switch v.K {
+	case refval.Null:
+		return na.AssignNull()
+	case refval.Bool:
+		return na.AssignBool(v.B)
+	case refval.Int:
+		return na.AssignInt(v.I)
+	case refval.Float:
+		return na.AssignFloat(math.Float64frombits(v.U))
+	case refval.String:
+		return na.AssignString(v.S)
+	case refval.Bytes:
+		return na.AssignBytes([]byte(v.S))
+	case refval.List:
+		la, err := na.BeginList(int64(len(v.L)))
+		if err != nil {
+			return err
+		}
+		for _, c := range v.L {
+			if err := Assign(la.AssembleValue(), c); err != nil {
+				return err
+			}
+		}
+		return la.Finish()
+	case refval.Map:
+		ma, err := na.BeginMap(int64(len(v.L)))
+		if err != nil {
+			return err
+		}
+		for i, c := range v.L {
+			if c.K == refval.Absent {
+				continue
+			}
+			va, err := ma.AssembleEntry(v.Keys[i])
+			if err != nil {
+				return err
+			}
+			if err := Assign(va, c); err != nil {
+				return err
+			}
+		}
+		return ma.Finish()
+	}
+	panic("refschema.Assign: unsupported value")
 }
